@@ -39,6 +39,10 @@ pub struct Solver {
 	pub timeout_ms: u64,
 	pub cmd: String,
 	pub unknowns: u64,
+	pub prefer_standalone: bool,
+	pub standalone_runs: u64,
+	pub cvc5_decided: u64,
+	pub full_timeout_ms: u64,
 }
 
 impl Solver {
@@ -71,14 +75,24 @@ impl Solver {
 			timeout_ms,
 			cmd: cmd.to_string(),
 			unknowns: 0,
+			prefer_standalone: false,
+			standalone_runs: 0,
+			cvc5_decided: 0,
+			full_timeout_ms: timeout_ms,
 		};
 		s.send("(set-option :print-success false)");
-		s.send(&format!("(set-option :timeout {})", timeout_ms));
+		s.send(&format!("(set-option :timeout {})", timeout_ms.min(2500)));
 		s
 	}
 	fn send(&mut self, line: &str) {
 		if self.error.is_some() {
 			return;
+		}
+		if let Ok(f) = std::env::var("RSX_SMTLOG") {
+			use std::io::Write as W2;
+			if let Ok(mut fh) = std::fs::OpenOptions::new().create(true).append(true).open(f) {
+				let _ = writeln!(fh, "{}", line);
+			}
 		}
 		if writeln!(self.sin, "{}", line).is_err() {
 			self.error = Some("solver pipe closed".into());
@@ -256,8 +270,24 @@ impl Solver {
 		self.ensure(tm, t);
 		let lit = if want { tm.ref_smt(t) } else { format!("(not {})", tm.ref_smt(t)) };
 		let t0 = Instant::now();
-		self.send(&format!("(check-sat-assuming ({}))", lit));
-		let r = self.read_res();
+		let mut r = Res::Unknown;
+		if !self.prefer_standalone {
+			self.send(&format!("(check-sat-assuming ({}))", lit));
+			r = self.read_res();
+			if r == Res::Unknown {
+				self.unknowns -= 1;
+			}
+		}
+		if r == Res::Unknown && self.error.is_none() {
+			// the incremental core has weak non-linear support: decide the same query with a fresh
+			// solver process (full tactic pipeline) on the standalone script
+			r = self.standalone(tm, &[(t, want)]);
+			if r != Res::Unknown {
+				self.prefer_standalone = true;
+			} else {
+				self.unknowns += 1;
+			}
+		}
 		self.time += t0.elapsed();
 		self.queries += 1;
 		if r != Res::Unknown {
@@ -265,12 +295,65 @@ impl Solver {
 		}
 		r
 	}
+	pub fn standalone(&mut self, tm: &Terms, extra: &[(T, bool)]) -> Res {
+		self.standalone_runs += 1;
+		let script = self.script(tm, extra);
+		let prog = self.cmd.split_whitespace().next().unwrap_or("z3").to_string();
+		let secs = (self.full_timeout_ms / 1000).max(1);
+		let mut ans;
+		if self.cvc5_decided > 0 {
+			ans = run_script("cvc5 --lang smt2", &script, secs.min(10));
+			if ans == "sat" || ans == "unsat" {
+				self.cvc5_decided += 1;
+			} else {
+				ans = run_script(&format!("{} -in", prog), &script, secs);
+			}
+		} else {
+			ans = run_script(&format!("{} -in", prog), &script, secs.min(6));
+			if ans != "sat" && ans != "unsat" && !ans.starts_with("error") {
+				// second standalone attempt with the other solver (different non-linear procedure)
+				let a2 = run_script("cvc5 --lang smt2", &script, secs);
+				if a2 == "sat" || a2 == "unsat" {
+					self.cvc5_decided += 1;
+					ans = a2;
+				}
+			}
+		}
+		if let Ok(d) = std::env::var("RSX_DUMP") {
+			let _ = std::fs::write(format!("{}/standalone{}_{}.smt2", d, self.standalone_runs, ans.replace(|c: char| !c.is_alphanumeric(), "_")), &script);
+		}
+		match ans.as_str() {
+			"sat" => Res::Sat,
+			"unsat" => Res::Unsat,
+			a if a.starts_with("error") => {
+				self.error = Some(format!("standalone solver {}", a));
+				Res::Unknown
+			}
+			_ => Res::Unknown,
+		}
+	}
 	pub fn check_pc(&mut self) -> Res {
 		let t0 = Instant::now();
 		self.send("(check-sat)");
 		let r = self.read_res();
 		self.time += t0.elapsed();
 		self.queries += 1;
+		r
+	}
+	pub fn check_pc_tm(&mut self, tm: &Terms) -> Res {
+		let mut r = Res::Unknown;
+		if !self.prefer_standalone {
+			r = self.check_pc();
+			if r == Res::Unknown {
+				self.unknowns -= 1;
+			}
+		}
+		if r == Res::Unknown && self.error.is_none() {
+			r = self.standalone(tm, &[]);
+			if r == Res::Unknown {
+				self.unknowns += 1;
+			}
+		}
 		r
 	}
 	fn read_res(&mut self) -> Res {
